@@ -1388,3 +1388,325 @@ package otto
 //@   calls utf16Length(_) as u when strings.LastIndex(s, substr) >= 0
 //@   ensures strings.LastIndex(s, substr) >= 0 ==> result == u
 //@   ensures strings.LastIndex(s, substr) < 0 ==> result == -1
+
+// ---------------------------------------------------------------------------
+// type_date.go, builtin_date.go: time values (C12)
+// ---------------------------------------------------------------------------
+
+//@ spec nanValue(v Value) bool = v.kind == valueNumber && is(v.value, float64) && isNaN(v.value.(float64))
+// TimeClip, ES5 15.9.1.14: a time value is a finite number of at most 8.64e15 ms magnitude
+//@ spec validTime(t float64) bool = !isNaN(t) && !isInf(t) && fabs(t) <= 8640000000000000.0
+
+// The dateObject invariant: the date is invalid exactly when its time value is NaN; a
+// valid date carries ToInteger of the time value it was set to (15.9.1.14), an invalid
+// one NaN.  Set establishes it for every double: NaN, +-Infinity and everything beyond
+// +-8.64e15 ms make the date invalid.
+//@ func epochToInteger
+//@   props C12
+//@   safety C02 C12
+//@   ensures validTime(value) ==> float64(result) == trunc(value)
+//@ func epochToTime
+//@   props C12
+//@   safety C02 C12
+//@   ensures (result1 != nil) <==> !validTime(value)
+//@ func (*dateObject).Set
+//@   props C12
+//@   safety C02 C12
+//@   requires d != nil
+//@   ensures d.isNaN <==> !validTime(epoch)
+//@   ensures d.isNaN ==> nanValue(d.value)
+//@   ensures !d.isNaN ==> d.value.kind == valueNumber && is(d.value.value, int64) && d.value.value.(int64) == d.epoch && float64(d.epoch) == trunc(epoch)
+//@ func (*dateObject).SetNaN
+//@   props C12
+//@   safety C02 C12
+//@   requires d != nil
+//@   ensures d.isNaN && nanValue(d.value)
+
+//@ func (*object).dateValue
+//@   inline
+// Only Date objects have a time value: anything else is a TypeError (15.9.5).
+//@ func dateObjectOf
+//@   props C12
+//@   safety C02 C12
+//@   requires rt != nil
+//@   throws date == nil || date.class != classDateName
+//@   ensures date != nil && date.class == classDateName
+//@   ensures is(date.value, dateObject) ==> result == date.value.(dateObject)
+
+// An invalid date stays invalid under every accessor (NaN) and formatter ("Invalid Date").
+
+//@ func builtinDateGetTime
+//@   props C12
+//@   nosafety
+//@   requires call.runtime != nil
+//@   calls dateObjectOf(_, _) as d
+//@   ensures d.isNaN ==> nanValue(result)
+
+//@ func builtinDateValueOf
+//@   props C12
+//@   nosafety
+//@   requires call.runtime != nil
+//@   calls dateObjectOf(_, _) as d
+//@   ensures d.isNaN ==> nanValue(result)
+
+//@ func builtinDateGetYear
+//@   props C12
+//@   nosafety
+//@   requires call.runtime != nil
+//@   calls dateObjectOf(_, _) as d
+//@   ensures d.isNaN ==> nanValue(result)
+
+//@ func builtinDateGetFullYear
+//@   props C12
+//@   nosafety
+//@   requires call.runtime != nil
+//@   calls dateObjectOf(_, _) as d
+//@   ensures d.isNaN ==> nanValue(result)
+
+//@ func builtinDateGetUTCFullYear
+//@   props C12
+//@   nosafety
+//@   requires call.runtime != nil
+//@   calls dateObjectOf(_, _) as d
+//@   ensures d.isNaN ==> nanValue(result)
+
+//@ func builtinDateGetMonth
+//@   props C12
+//@   nosafety
+//@   requires call.runtime != nil
+//@   calls dateObjectOf(_, _) as d
+//@   ensures d.isNaN ==> nanValue(result)
+
+//@ func builtinDateGetUTCMonth
+//@   props C12
+//@   nosafety
+//@   requires call.runtime != nil
+//@   calls dateObjectOf(_, _) as d
+//@   ensures d.isNaN ==> nanValue(result)
+
+//@ func builtinDateGetDate
+//@   props C12
+//@   nosafety
+//@   requires call.runtime != nil
+//@   calls dateObjectOf(_, _) as d
+//@   ensures d.isNaN ==> nanValue(result)
+
+//@ func builtinDateGetUTCDate
+//@   props C12
+//@   nosafety
+//@   requires call.runtime != nil
+//@   calls dateObjectOf(_, _) as d
+//@   ensures d.isNaN ==> nanValue(result)
+
+//@ func builtinDateGetDay
+//@   props C12
+//@   nosafety
+//@   requires call.runtime != nil
+//@   calls dateObjectOf(_, _) as d
+//@   ensures d.isNaN ==> nanValue(result)
+
+//@ func builtinDateGetUTCDay
+//@   props C12
+//@   nosafety
+//@   requires call.runtime != nil
+//@   calls dateObjectOf(_, _) as d
+//@   ensures d.isNaN ==> nanValue(result)
+
+//@ func builtinDateGetHours
+//@   props C12
+//@   nosafety
+//@   requires call.runtime != nil
+//@   calls dateObjectOf(_, _) as d
+//@   ensures d.isNaN ==> nanValue(result)
+
+//@ func builtinDateGetUTCHours
+//@   props C12
+//@   nosafety
+//@   requires call.runtime != nil
+//@   calls dateObjectOf(_, _) as d
+//@   ensures d.isNaN ==> nanValue(result)
+
+//@ func builtinDateGetMinutes
+//@   props C12
+//@   nosafety
+//@   requires call.runtime != nil
+//@   calls dateObjectOf(_, _) as d
+//@   ensures d.isNaN ==> nanValue(result)
+
+//@ func builtinDateGetUTCMinutes
+//@   props C12
+//@   nosafety
+//@   requires call.runtime != nil
+//@   calls dateObjectOf(_, _) as d
+//@   ensures d.isNaN ==> nanValue(result)
+
+//@ func builtinDateGetSeconds
+//@   props C12
+//@   nosafety
+//@   requires call.runtime != nil
+//@   calls dateObjectOf(_, _) as d
+//@   ensures d.isNaN ==> nanValue(result)
+
+//@ func builtinDateGetUTCSeconds
+//@   props C12
+//@   nosafety
+//@   requires call.runtime != nil
+//@   calls dateObjectOf(_, _) as d
+//@   ensures d.isNaN ==> nanValue(result)
+
+//@ func builtinDateGetMilliseconds
+//@   props C12
+//@   nosafety
+//@   requires call.runtime != nil
+//@   calls dateObjectOf(_, _) as d
+//@   ensures d.isNaN ==> nanValue(result)
+
+//@ func builtinDateGetUTCMilliseconds
+//@   props C12
+//@   nosafety
+//@   requires call.runtime != nil
+//@   calls dateObjectOf(_, _) as d
+//@   ensures d.isNaN ==> nanValue(result)
+
+//@ func builtinDateGetTimezoneOffset
+//@   props C12
+//@   nosafety
+//@   requires call.runtime != nil
+//@   calls dateObjectOf(_, _) as d
+//@   ensures d.isNaN ==> nanValue(result)
+
+//@ func builtinDateToString
+//@   props C12
+//@   nosafety
+//@   requires call.runtime != nil
+//@   calls dateObjectOf(_, _) as d
+//@   ensures d.isNaN ==> result.kind == valueString && is(result.value, string) && result.value.(string) == "Invalid Date"
+
+//@ func builtinDateToDateString
+//@   props C12
+//@   nosafety
+//@   requires call.runtime != nil
+//@   calls dateObjectOf(_, _) as d
+//@   ensures d.isNaN ==> result.kind == valueString && is(result.value, string) && result.value.(string) == "Invalid Date"
+
+//@ func builtinDateToTimeString
+//@   props C12
+//@   nosafety
+//@   requires call.runtime != nil
+//@   calls dateObjectOf(_, _) as d
+//@   ensures d.isNaN ==> result.kind == valueString && is(result.value, string) && result.value.(string) == "Invalid Date"
+
+//@ func builtinDateToUTCString
+//@   props C12
+//@   nosafety
+//@   requires call.runtime != nil
+//@   calls dateObjectOf(_, _) as d
+//@   ensures d.isNaN ==> result.kind == valueString && is(result.value, string) && result.value.(string) == "Invalid Date"
+
+//@ func builtinDateToISOString
+//@   props C12
+//@   nosafety
+//@   requires call.runtime != nil
+//@   calls dateObjectOf(_, _) as d
+//@   ensures d.isNaN ==> result.kind == valueString && is(result.value, string) && result.value.(string) == "Invalid Date"
+
+//@ func builtinDateToGMTString
+//@   props C12
+//@   nosafety
+//@   requires call.runtime != nil
+//@   calls dateObjectOf(_, _) as d
+//@   ensures d.isNaN ==> result.kind == valueString && is(result.value, string) && result.value.(string) == "Invalid Date"
+
+//@ func builtinDateToLocaleString
+//@   props C12
+//@   nosafety
+//@   requires call.runtime != nil
+//@   calls dateObjectOf(_, _) as d
+//@   ensures d.isNaN ==> result.kind == valueString && is(result.value, string) && result.value.(string) == "Invalid Date"
+
+//@ func builtinDateToLocaleDateString
+//@   props C12
+//@   nosafety
+//@   requires call.runtime != nil
+//@   calls dateObjectOf(_, _) as d
+//@   ensures d.isNaN ==> result.kind == valueString && is(result.value, string) && result.value.(string) == "Invalid Date"
+
+//@ func builtinDateToLocaleTimeString
+//@   props C12
+//@   nosafety
+//@   requires call.runtime != nil
+//@   calls dateObjectOf(_, _) as d
+//@   ensures d.isNaN ==> result.kind == valueString && is(result.value, string) && result.value.(string) == "Invalid Date"
+
+// Date.UTC / new Date(y, m, ...): a NaN or infinite field makes the result NaN; the year
+// handed to the calendar is ToInteger(year), plus 1900 when that is within 0..99.
+//@ spec finiteNum(v Value) bool = isGoNumber(v) && !isNaN(numOf(v)) && !isInf(numOf(v))
+//@ spec smallNum(v Value) bool = finiteNum(v) && fabs(numOf(v)) < 2147483648.0
+// JavaScript months are 0-based, Go's 1-based (15.9.1.4)
+//@ func dateToGoMonth
+//@   props C12
+//@   ensures int(result) == month + 1
+//@ func dateFromGoMonth
+//@   props C12
+//@   ensures result == int(month) - 1
+//@ func newDateTime
+//@   props C12
+//@   nosafety
+//@   pure_calls (Value).float64
+//@   requires len(argumentList) > 0 ==> jsValue(argumentList[0]) && argumentList[0].kind != valueObject
+//@   requires len(argumentList) > 1 ==> jsValue(argumentList[1]) && argumentList[1].kind != valueObject
+//@   requires len(argumentList) > 2 ==> jsValue(argumentList[2]) && argumentList[2].kind != valueObject
+//@   requires len(argumentList) > 3 ==> jsValue(argumentList[3]) && argumentList[3].kind != valueObject
+//@   requires len(argumentList) > 4 ==> jsValue(argumentList[4]) && argumentList[4].kind != valueObject
+//@   requires len(argumentList) > 5 ==> jsValue(argumentList[5]) && argumentList[5].kind != valueObject
+//@   requires len(argumentList) > 6 ==> jsValue(argumentList[6]) && argumentList[6].kind != valueObject
+//@   stable argumentList
+//@   ensures len(argumentList) >= 2 && isGoNumber(argumentList[0]) && !finiteNum(argumentList[0]) ==> isNaN(result)
+//@   ensures len(argumentList) >= 2 && isGoNumber(argumentList[1]) && !finiteNum(argumentList[1]) ==> isNaN(result)
+//@   ensures len(argumentList) >= 3 && isGoNumber(argumentList[2]) && !finiteNum(argumentList[2]) ==> isNaN(result)
+//@   ensures len(argumentList) >= 4 && isGoNumber(argumentList[3]) && !finiteNum(argumentList[3]) ==> isNaN(result)
+//@   ensures len(argumentList) >= 5 && isGoNumber(argumentList[4]) && !finiteNum(argumentList[4]) ==> isNaN(result)
+//@   ensures len(argumentList) >= 6 && isGoNumber(argumentList[5]) && !finiteNum(argumentList[5]) ==> isNaN(result)
+//@   ensures len(argumentList) >= 7 && isGoNumber(argumentList[6]) && !finiteNum(argumentList[6]) ==> isNaN(result)
+//@   at_call time.Date : smallNum(argumentList[0]) && trunc(numOf(argumentList[0])) >= 0.0 && trunc(numOf(argumentList[0])) <= 99.0 ==> float64(arg0) == trunc(numOf(argumentList[0])) + 1900.0
+//@   at_call time.Date : smallNum(argumentList[0]) && !(trunc(numOf(argumentList[0])) >= 0.0 && trunc(numOf(argumentList[0])) <= 99.0) ==> float64(arg0) == trunc(numOf(argumentList[0]))
+//@   at_call time.Date : smallNum(argumentList[1]) ==> float64(arg1) == trunc(numOf(argumentList[1])) + 1.0
+//@   at_call time.Date : len(argumentList) >= 3 && smallNum(argumentList[2]) ==> float64(arg2) == trunc(numOf(argumentList[2]))
+//@   at_call time.Date : len(argumentList) < 3 ==> arg2 == 1
+
+// The receiver as an object: cached in the call record; ToObject of a primitive receiver
+// creates a fresh wrapper and leaves every existing object alone.  TRUSTED (ToObject and
+// the wrapper constructors are outside the verified set); undefined/null receivers throw.
+//@ func (*FunctionCall).thisObject
+//@   trusted
+//@   requires f != nil
+//@   writes_only_at f.thisObj
+//@   preserves FunctionCall.runtime, FunctionCall.ArgumentList, FunctionCall.This, FunctionCall.eval, FunctionCall.Otto, elems(Value), object.value, object.class
+//@   ensures result != nil && result == f.thisObj
+//@   ensures old(f.thisObj) != nil ==> result == old(f.thisObj)
+
+// Shared prologue of the seventeen setters (15.9.5.28-40): an invalid date stays invalid
+// (nothing is returned to work on); a missing, NaN or infinite field makes the receiver
+// invalid; otherwise min(limit, argc) >= 1 integer fields are handed back together with
+// the broken-down current time.
+//@ func builtinDateBeforeSet
+//@   props C12
+//@   safety C02 C12
+//@   requires call.runtime != nil && argsOK(call.ArgumentList) && 0 <= argumentLimit && argumentLimit <= 7
+//@   requires forall i int :: 0 <= i && i < len(call.ArgumentList) ==> jsValue(call.ArgumentList[i]) && call.ArgumentList[i].kind != valueObject
+//@   pure_calls (Value).number
+//@   stable call.ArgumentList
+//@   invariant@1 len(valueList) >= 1 && len(valueList) <= len(call.ArgumentList) && len(valueList) <= argumentLimit && 0 <= index && index < len(valueList)
+//@   invariant@1 forall i int :: 0 <= i && i < len(call.ArgumentList) ==> jsValue(call.ArgumentList[i]) && call.ArgumentList[i].kind != valueObject
+//@   calls dateObjectOf(_, _) as d
+//@   calls (*FunctionCall).thisObject(_) as o
+//@   ensures d.isNaN ==> result0 == nil && result1 == nil && result2 == nil
+//@   ensures !d.isNaN && result2 == nil ==> is(o.value, dateObject) && o.value.(dateObject).isNaN
+//@   ensures result2 != nil ==> result0 == o && result1 != nil && len(result3) >= 1 && len(result3) <= old(argumentLimit) && len(result3) <= len(call.ArgumentList)
+
+// The time value of a Go time is its Unix time in milliseconds (exact for the whole ES5
+// range; the nanosecond count would wrap outside 1677..2262).
+//@ func timeToEpoch
+//@   props C12
+//@   calls time.(time.Time).UnixMilli(_) as ms
+//@   ensures result == float64(ms)
